@@ -143,19 +143,23 @@ def gen_case(rnd, ctx, maxlen):
             ctx.count("op:Delete")
             cur = None
             continue
-        if r < 0.24:
+        if r < 0.27:
+            ops.append(["Retrait"])
+            ctx.count("op:Retrait")
+            continue
+        if r < 0.33:
             v = REJ if rnd.random() < 0.4 else rnd.randrange(NPOOL)
             ops.append(["QuietAssign", v])
             ctx.count("op:QuietAssign:" + ("rejected" if v == REJ else "accepted"))
             if v != REJ:
                 cur = v
             continue
-        if r < 0.38 and cur is not None:
+        if r < 0.45 and cur is not None:
             v = cur                                         # the identical object again
-        elif r < 0.55 and cur is not None:
+        elif r < 0.6 and cur is not None:
             g = next((g for g in groups if cur in g), [cur])
             v = rnd.choice(g)                               # equal-but-not-identical partner / alias
-        elif r < 0.63:
+        elif r < 0.67:
             v = REJ
         else:
             v = rnd.randrange(NPOOL)
@@ -176,6 +180,9 @@ def gen_case(rnd, ctx, maxlen):
     if not orig:
         r = rnd.random()
         variant = "any" if r < 0.15 else "ddef" if (r < 0.3 and kind == "normal") else ""
+    if variant == "ddef":
+        # add_trait cannot re-create a class-level `_x_default` wiring: the re-added definition would have another default
+        ops = [op for op in ops if op[0] != "Retrait"] or [["Read"]]
     ctx.count("trait-variant:" + (variant or "validating-trait-type"))
     sinkmode = "default" if rnd.random() < 0.25 else "recording"
     ctx.count("exception-handler:" + sinkmode)
@@ -205,11 +212,21 @@ def corpus():
         for variant in ("any", "ddef"):
             cs.append(dict(kind=kind, mode=mode, default=0, statics=["any", "changed"], dyn=["obs", "otc"], raises=[10],
                            variant=variant, ops=allops))
+    retrait = [["Assign", 0], ["Retrait"], ["Assign", 2], ["Assign", 2], ["Retrait"], ["Retrait"], ["Assign", 1], ["Read"],
+               ["Delete"], ["Retrait"], ["Assign", 3], ["Assign", 9]]
     quiet = [["Assign", 0], ["QuietAssign", 2], ["Assign", 0], ["QuietAssign", 9], ["Assign", 2], ["Read"], ["QuietAssign", 2],
              ["Assign", 1], ["Delete"], ["QuietAssign", 9], ["Assign", 3]]
     for kind, mode in (("normal", "none"), ("normal", "identity"), ("normal", "equality"), ("event", "equality")):
         # quiet sets (accepted and rejected) between ordinary assignments
         cs.append(dict(kind=kind, mode=mode, default=6, statics=["changed"], dyn=["obs", "otc", "otcany"], raises=[], ops=quiet))
+        # add_trait over the existing trait (before and after dynamic handlers exist; first operation too)
+        cs.append(dict(kind=kind, mode=mode, default=6, statics=["any", "changed", "fired", "dotc", "dobs"],
+                       dyn=["obs", "otc", "otcany", "otcm"], raises=[1], ops=retrait))
+        cs.append(dict(kind=kind, mode=mode, default=0, statics=["any", "changed"], dyn=[], raises=[],
+                       ops=[["Retrait"], ["Assign", 2], ["Retrait"], ["Assign", 1]]))
+        # several bound-method handlers whose owners are equal but distinct objects
+        cs.append(dict(kind=kind, mode=mode, default=6, statics=[], dyn=["otcm", "otcm", "obsm", "obsm", "otcm"], raises=[11],
+                       ops=[["Assign", 0], ["Assign", 2], ["Retrait"], ["Assign", 0]]))
         # the library's default exception handlers, values whose str()/repr() raise, every mechanism raising in turn
         for r in ([0], [1], [2], [10], [11], [12], [3, 4]):
             cs.append(dict(kind=kind, mode=mode, default=6, statics=["any", "changed", "fired", "dotc", "dobs"],
@@ -256,7 +273,7 @@ def run(ctx):
                        "handler mix (static _anytrait_changed/_x_changed/_x_fired, @on_trait_change / @observe decorated methods, 0-4 on_trait_change(name)/on_trait_change()/observe handlers (functions and bound methods) in "
                        "any registration order, 0-2 of them raising) x history of assignments (identical object again, "
                        "equal-but-not-identical partner, NaN, raising ==, incoherent ==/!=, None, unhashable list, 0/0.0, "
-                       "rejected value, converted value) reads (first read of the default included) and `del`; evaluation = one "
+                       "rejected value, converted value) reads (first read of the default included), `del`, quiet sets and add_trait over the existing trait; evaluation = one "
                        "operation; non-trivial = some step calls a handler or is refused")
     rnd = random.Random(ctx.seed)
     n, maxlen = (1200, 12) if ctx.tier == "quick" else (26000, 40)
